@@ -12,6 +12,17 @@
 #ifndef GCFG
 #define GCFG 0
 #endif
+// CEQ=1: "constant evaluation cannot fail" query (UB build, kernel.cpp with strict FP semantics: every floating-point operation of the
+// constant-evaluation path carries the obligations of LL_CEFP_* in engine/ll_prelude.h). CE_DOMAIN restricts such a query to the
+// documented domain of the function (arguments with a range / domain error are outside it); functional queries are not restricted.
+#ifndef CEQ
+#define CEQ 0
+#endif
+#if CEQ
+#define CE_DOMAIN(c) vf_assume(c)
+#else
+#define CE_DOMAIN(c) ((void)0)
+#endif
 #if DBL
 #ifndef FT
 #define FT double
@@ -57,6 +68,8 @@ static NOINL FT m_trunc(FT x) { return std::trunc(x); }
 static NOINL FT m_rint(FT x) { return std::rint(x); }
 static NOINL FT m_fma(FT x, FT y, FT z) { return std::fma(x, y, z); }
 static NOINL FT m_muladd(FT x, FT y, FT z) { FT p = x * y; return p + z; }
+static NOINL FT m_mul(FT x, FT y) { return x * y; }
+static NOINL FT m_sub(FT x, FT y) { return x - y; }
 
 // ================================================================ functions that branch on is_constant_evaluated()
 Q q_floor()
@@ -143,43 +156,42 @@ Q q_fma()
 {
     FT x = nd(), y = nd(), z = nd();
     VF_KNOWN(C13_fma_unfused, !same(m_fma(x, y, z), m_muladd(x, y, z)));
-    FT c = kc_fma(x, y, z);
-    if (isfin(c) && c != z && c != 0) vf_witness("fma_nontrivial");
+    VF_KNOWN(C13_fma_nan_clang, CEQ && (isnan_(x) || isnan_(y) || isnan_(z)));
+    // domain / range errors of fma (ISO C 7.12.13.1, F.10.10.1): 0 * inf, inf * y + (-inf), and an overflowing result
+    CE_DOMAIN(isnan_(x) || isnan_(y) || isnan_(z) || (!isnan_(m_mul(x, y)) && !isnan_(m_muladd(x, y, z))));
+    CE_DOMAIN(!(isfin(x) && isfin(y) && isinf_(m_mul(x, y))) && !(isfin(m_mul(x, y)) && isfin(z) && isinf_(m_muladd(x, y, z))));
+    FT c = kc_fma(x, y, z);   // no inner witness: this query is decided on the SMT route (identical float terms are merged there)
     FT r = kr_fma(x, y, z);
     vf_assert(same(c, r), "fma(x, y, z): constant-evaluation path == run-time path");
 }
-// integral overloads: every int / long long (independent of FT)
-Q q_int_overloads()
-{
-    int v = (int)vf_nd_u32();
-    double c = kc_floor_i(v);
-    if (v < -1000000) vf_witness("int_negative");
-    vf_assert(samed(c, kr_floor_i(v)), "floor(int): both paths agree");
-    vf_assert(samed(kc_trunc_i(v), kr_trunc_i(v)), "trunc(int): both paths agree");
-    vf_assert(samed(kc_round_i(v), kr_round_i(v)), "round(int): both paths agree");
-    vf_assert(samed(kc_rint_i(v), kr_rint_i(v)), "rint(int): both paths agree");
-    vf_assert(kc_lrint_i(v) == kr_lrint_i(v), "lrint(int): both paths agree");
-    vf_assert(kc_llrint_i(v) == kr_llrint_i(v), "llrint(int): both paths agree");
-    vf_assert(samed(kc_ceil_i(v), kr_ceil_i(v)), "ceil(int): both paths agree");
-}
-// long long: double(v) can be 2^63 exactly (v > 2^63 - 513), where the gcem cast is undefined: the *_huge findings
-Q q_ll_overloads()
-{
-    long long v = (long long)vf_nd_u64();
-    bool top = (double)v >= 0x1p63;
-    VF_KNOWN(C13_floor_huge, top);
-    VF_KNOWN(C13_trunc_huge, top);
-    VF_KNOWN(C13_round_huge, top);
-    VF_KNOWN(C13_rint_cast_range, top);
-    VF_KNOWN(C13_ceil_huge, top);
-    double c = kc_floor_l(v);
-    if (v < -(1ll << 60)) vf_witness("ll_negative");
-    vf_assert(samed(c, kr_floor_l(v)), "floor(long long): both paths agree");
-    vf_assert(samed(kc_trunc_l(v), kr_trunc_l(v)), "trunc(long long): both paths agree");
-    vf_assert(samed(kc_round_l(v), kr_round_l(v)), "round(long long): both paths agree");
-    vf_assert(samed(kc_rint_l(v), kr_rint_l(v)), "rint(long long): both paths agree");
-    vf_assert(samed(kc_ceil_l(v), kr_ceil_l(v)), "ceil(long long): both paths agree");
-}
+// integral overloads: every int / every long long (independent of FT); the argument is converted to double first
+#define INT_OVERLOAD(fn, R, EQ)                                                                                        \
+    Q q_##fn##_i()                                                                                                     \
+    {                                                                                                                  \
+        int v = (int)vf_nd_u32();                                                                                      \
+        R c = kc_##fn##_i(v);                                                                                          \
+        if (v < -1000000) vf_witness("int_negative");                                                                  \
+        R r = kr_##fn##_i(v);                                                                                          \
+        vf_assert(EQ(c, r), #fn "(int): constant-evaluation path == run-time path");                                   \
+    }
+#define EQI(a, b) ((a) == (b))
+INT_OVERLOAD(floor, double, samed) INT_OVERLOAD(trunc, double, samed) INT_OVERLOAD(round, double, samed) INT_OVERLOAD(rint, double, samed)
+INT_OVERLOAD(lrint, long, EQI) INT_OVERLOAD(llrint, long long, EQI) INT_OVERLOAD(ceil, double, samed)
+// long long: double(v) is 2^63 exactly for v > 2^63 - 513, where the gcem / rint_fallback cast is undefined: the *_huge findings
+// (round casts |x|: also v == -2^63)
+#define LL_OVERLOAD(fn, ID, REGION)                                                                                    \
+    Q q_##fn##_l()                                                                                                     \
+    {                                                                                                                  \
+        long long v = (long long)vf_nd_u64();                                                                          \
+        bool top = (double)v >= 0x1p63, bottom = (double)v <= -0x1p63;                                                 \
+        VF_KNOWN(ID, REGION);                                                                                          \
+        double c = kc_##fn##_l(v);                                                                                     \
+        if (v < -(1ll << 60) && !bottom) vf_witness("ll_negative");                                                    \
+        double r = kr_##fn##_l(v);                                                                                     \
+        vf_assert(samed(c, r), #fn "(long long): constant-evaluation path == run-time path");                          \
+    }
+LL_OVERLOAD(floor, C13_floor_huge, top) LL_OVERLOAD(trunc, C13_trunc_huge, top) LL_OVERLOAD(round, C13_round_huge, top || bottom)
+LL_OVERLOAD(rint, C13_rint_cast_range, top) LL_OVERLOAD(ceil, C13_ceil_huge, top)
 
 // ================================================================ single code path: same code at compile time and at run time; the UB build of
 // these queries decides "constant evaluation succeeds for every argument" (UB in a constant expression = compile error)
@@ -192,10 +204,18 @@ Q q_ceil()
     FT r = kr_ceil(x);
     vf_assert(same(c, r), "ceil(x): single path, both TUs agree");
 }
-Q q_fabs() { FT x = nd(); FT c = kc_fabs(x); if (sign_(x) && !isnan_(x)) vf_witness("fabs_negative"); vf_assert(same(c, kr_fabs(x)), "fabs(x): single path, both TUs agree"); }
+Q q_fabs() { FT x = nd(); VF_KNOWN(C13_fabs_nan_clang, CEQ && isnan_(x)); FT c = kc_fabs(x); if (sign_(x) && !isnan_(x)) vf_witness("fabs_negative"); vf_assert(same(c, kr_fabs(x)), "fabs(x): single path, both TUs agree"); }
 Q q_fmin() { FT x = nd(), y = nd(); FT c = kc_fmin(x, y); if (x < y) vf_witness("fmin_first"); vf_assert(same(c, kr_fmin(x, y)), "fmin(x, y): single path, both TUs agree"); }
 Q q_fmax() { FT x = nd(), y = nd(); FT c = kc_fmax(x, y); if (x < y) vf_witness("fmax_second"); vf_assert(same(c, kr_fmax(x, y)), "fmax(x, y): single path, both TUs agree"); }
-Q q_fdim() { FT x = nd(), y = nd(); FT c = kc_fdim(x, y); if (x > y) vf_witness("fdim_positive"); vf_assert(same(c, kr_fdim(x, y)), "fdim(x, y): single path, both TUs agree"); }
+Q q_fdim()
+{
+    FT x = nd(), y = nd();
+    VF_KNOWN(C13_fdim_nan_clang, CEQ && (isnan_(x) || isnan_(y)));
+    VF_KNOWN(C13_fdim_inf_inf, CEQ && isinf_(x) && isinf_(y) && sign_(x) == sign_(y));
+    CE_DOMAIN(!(isfin(x) && isfin(y) && isinf_(m_sub(x, y))));   // x - y overflows: range error (ISO C 7.12.12.1)
+    FT c = kc_fdim(x, y);     if (x > y) vf_witness("fdim_positive");
+    vf_assert(same(c, kr_fdim(x, y)), "fdim(x, y): single path, both TUs agree");
+}
 Q q_classify()
 {
     FT x = nd();
